@@ -250,13 +250,63 @@ impl Write for FailAfter {
 	}
 }
 
-/// Shared sink that stays observable after the writer is dropped
+/// Shared sink that stays observable after the writer is dropped; with a non-empty schedule it
+/// accepts at most `schedule[i]` bytes on its i-th call (short writes, never an error)
 #[derive(Clone, Default)]
-pub struct SharedSink(pub std::rc::Rc<std::cell::RefCell<Vec<u8>>>);
+pub struct SharedSink {
+	pub buf: std::rc::Rc<std::cell::RefCell<Vec<u8>>>,
+	pub schedule: Vec<usize>,
+	pub idx: usize,
+	pub native_vectored: bool,
+}
+impl SharedSink {
+	pub fn scheduled(schedule: Vec<usize>, native_vectored: bool) -> Self {
+		SharedSink {
+			buf: Default::default(),
+			schedule,
+			idx: 0,
+			native_vectored,
+		}
+	}
+	fn quota(&mut self) -> usize {
+		if self.schedule.is_empty() {
+			return usize::MAX;
+		}
+		let q = self.schedule[self.idx % self.schedule.len()];
+		self.idx += 1;
+		q.max(1)
+	}
+}
 impl Write for SharedSink {
 	fn write(&mut self, buf: &[u8]) -> io::Result<usize> {
-		self.0.borrow_mut().extend_from_slice(buf);
-		Ok(buf.len())
+		if buf.is_empty() {
+			return Ok(0);
+		}
+		let n = self.quota().min(buf.len());
+		self.buf.borrow_mut().extend_from_slice(&buf[..n]);
+		Ok(n)
+	}
+	fn write_vectored(&mut self, bufs: &[IoSlice<'_>]) -> io::Result<usize> {
+		if !self.native_vectored {
+			let buf = bufs.iter().find(|b| !b.is_empty()).map_or(&[][..], |b| &**b);
+			return self.write(buf);
+		}
+		let total: usize = bufs.iter().map(|b| b.len()).sum();
+		if total == 0 {
+			return Ok(0);
+		}
+		let n = self.quota().min(total);
+		let mut left = n;
+		let mut out = self.buf.borrow_mut();
+		for b in bufs {
+			if left == 0 {
+				break;
+			}
+			let k = left.min(b.len());
+			out.extend_from_slice(&b[..k]);
+			left -= k;
+		}
+		Ok(n)
 	}
 	fn flush(&mut self) -> io::Result<()> {
 		Ok(())
